@@ -1,9 +1,78 @@
-(** C22 — property theorems only (stub while the correspondence is being set up). *)
+(** C22 — property theorems only.
+    [pipeline c p m] is the model of one EventTx message against pool [p]
+    (Model.v); [acceptable c p s] is the conjunction of the property text
+    (Spec.v).  Guards (Proofs.v): [g_fwd] not forwarded to the main chain,
+    [g_wrap] a group's wrapper is its first transaction, [g_fee] minimum rate
+    non-zero or tiered fee on or Fee >= 0, [g_hdr] no member Header parses as an
+    empty group.  [cfg_ok]: MinTxFeeRate >= 0 and MaxTxFeeRate >= 0. *)
 From Coq Require Import List ZArith NArith Bool.
-From C33 Require Import C22.Model C22.Spec.
+From C33 Require Import C22.Model C22.Spec C22.Proofs C22.ProofsRefute.
 Import ListNotations.
 Open Scope Z_scope.
 
-Theorem C22_stub : forall c p, pipeline c p SNil = (if c_synced c then R_EMPTY else R_NOTSYNC, p).
-Proof. intros c p. unfold pipeline. destruct (c_synced c); reflexivity. Qed.
-Print Assumptions C22_stub.
+Theorem C22_admitted_implies_acceptable_partial : forall c p s p',
+  cfg_ok c -> pipeline c p (STx s) = (R_OK, p') ->
+  g_fwd s && g_wrap s && g_fee c s && g_hdr s = true ->
+  acceptable c p s = true.
+Proof. exact admitted_partial. Qed.
+Print Assumptions C22_admitted_implies_acceptable_partial.
+
+Theorem C22_group_members_checked : forall c p s ms ok p',
+  pipeline c p (STx s) = (R_OK, p') -> s_forward s = false -> s_shape s = Group ms ok ->
+  ok = true /\ 2 <= Z.of_nat (length ms) /\
+  forall t, In t ms ->
+    t_sig_ok t = true /\ t_to_valid t = true /\ t_blocked t = false /\ t_on_chain t = false
+    /\ (c_strict_chain c = true -> t_chain_ok t = true)
+    /\ count_sender p (t_sender t) < c_persender c
+    /\ (t_hdr_empty t = false -> expired_next c t = false).
+Proof. exact group_members_checked. Qed.
+Print Assumptions C22_group_members_checked.
+
+Theorem C22_rejected_leaves_pool_unchanged : forall c p m r p',
+  pipeline c p m = (r, p') -> r <> R_OK -> p' = p.
+Proof. exact rejected_unchanged. Qed.
+Print Assumptions C22_rejected_leaves_pool_unchanged.
+
+Theorem C22_admitted_appends_one : forall c p m p',
+  pipeline c p m = (R_OK, p') ->
+  exists s, m = STx s /\ p' = p ++ [s_outer s] /\ c_synced c = true
+            /\ count_sender p (t_sender (s_outer s)) < c_persender c /\ pool_size p < c_cap c.
+Proof. exact admitted_appends. Qed.
+Print Assumptions C22_admitted_appends_one.
+
+(** the statement at full strength ([C22_admitted_implies_acceptable_full], ProofsRefute.v:
+    no guard), and why each guard is there *)
+Theorem C22_admitted_implies_acceptable_refuted : ~ C22_admitted_implies_acceptable_full.
+Proof. exact refuted_full. Qed.
+Print Assumptions C22_admitted_implies_acceptable_refuted.
+
+Theorem C22_refuted_forward :
+  ~ (forall c p s p', cfg_ok c -> pipeline c p (STx s) = (R_OK, p') ->
+       g_wrap s && g_fee c s && g_hdr s = true -> acceptable c p s = true).
+Proof. exact refuted_forward. Qed.
+Print Assumptions C22_refuted_forward.
+
+Theorem C22_refuted_wrapper :
+  ~ (forall c p s p', cfg_ok c -> pipeline c p (STx s) = (R_OK, p') ->
+       g_fwd s && g_fee c s && g_hdr s = true -> acceptable c p s = true).
+Proof. exact refuted_wrapper. Qed.
+Print Assumptions C22_refuted_wrapper.
+
+Theorem C22_refuted_negfee :
+  ~ (forall c p s p', cfg_ok c -> pipeline c p (STx s) = (R_OK, p') ->
+       g_fwd s && g_wrap s && g_hdr s = true -> acceptable c p s = true).
+Proof. exact refuted_negfee. Qed.
+Print Assumptions C22_refuted_negfee.
+
+Theorem C22_refuted_hdrempty :
+  ~ (forall c p s p', cfg_ok c -> pipeline c p (STx s) = (R_OK, p') ->
+       g_fwd s && g_wrap s && g_fee c s = true -> acceptable c p s = true).
+Proof. exact refuted_hdrempty. Qed.
+Print Assumptions C22_refuted_hdrempty.
+
+Theorem C22_guards_satisfiable :
+  exists c p s p', cfg_ok c /\ p <> [] /\ pipeline c p (STx s) = (R_OK, p')
+                   /\ g_fwd s && g_wrap s && g_fee c s && g_hdr s = true
+                   /\ acceptable c p s = true /\ length (members s) = 3%nat.
+Proof. exact guards_satisfiable. Qed.
+Print Assumptions C22_guards_satisfiable.
